@@ -17,6 +17,10 @@ CLAIMED = {
    technique="polynomial value numbering of the matrix routines over SSA (exact rationals, uninterpreted trig) compared with specification matrices + AST/SSA checks of vocabulary, arity, argument order, composition order and origin conjugation",
    text="Decides that each routine of package matrix, as a polynomial in its inputs, equals the specification matrix (and in-place operations equal right multiplication by the constructor), that SVG transform.applyTo right-multiplies by the specified matrix per kind with degrees converted to radians, and that the CSS/SVG plumbing (names, arities, argument positions, left-to-right composition, transform-origin conjugation, angle-unit table) is as specified. Float rounding is outside the abstraction; the matrix finally handed to the backend is not traced further than getMatrix/applyTo.",
    ref="4 C17"),
+ "C19": dict(
+   technique="division/modulo hazard analysis (path-condition reachability under divisor==0 and dividend<0 scenarios, coinductive loop-carried sign facts, caller-side preconditions) + vocabulary and dispatch-table agreement on the AST + visited-set (recursion guard) checks on SSA",
+   text="Decides that no integer division or modulo of the counter renderer can see a zero divisor or index with a negative remainder, that the counter-system vocabulary agrees across validator, symbols(), Validate and renderer, that each system dispatches to its algorithm with the Counter Styles negative-sign set and automatic ranges, and that the extends/fallback walks use a visited set. The arithmetic of each system and counter scoping in the box tree are not decided.",
+   ref="4 C19"),
  "C16": dict(
    technique="must-precede / no-way-back analysis on the SSA control-flow graph of drawStackingContext's closures + path-condition reachability over all orderings/truth assignments for the z-index partition and the stacking-context predicate + sort-call and comparator inspection",
    text="Decides that the Appendix E steps occur in order on every path of drawStackingContext (background, border, negative contexts, blocks, floats, inline content, cells, zero and positive contexts, outlines), that child contexts are partitioned by the sign of z-index and sorted stably with a strict comparison, and that a box starts a stacking context exactly under the four CSS conditions (all 32 assignments). How boxes are dispatched into the block/float/cell lists and the scoping of opacity/transform groups are not decided.",
